@@ -325,6 +325,86 @@ print("property holds on this case"); sys.exit(0)
 '''
 
 
+def real_types(tr):
+    """the catalogue's REAL classes: the dependency closure (by identity, through _get_inner_types / _depends_on)
+    against sort_classes; two distinct classes that end up with one name are what the by-name bookkeeping of
+    sort_classes / the include guards cannot tell apart"""
+    from vx import typegen as tg
+
+    out = dict(types=0, failures=[])
+    for label, ast in tg.catalogue(tr, seed()):
+        cls = tg.build(ast)
+        if not hasattr(cls, "_gen_c_api"):
+            continue
+        out["types"] += 1
+        clos, st = [], [cls]
+        while st:
+            c = st.pop()
+            if any(c is x for x in clos):
+                continue
+            clos.append(c)
+            inner = list(c._get_inner_types()) if hasattr(c, "_get_inner_types") else []
+            inner += list(getattr(c, "_depends_on", []))
+            st += inner
+        need = [c for c in clos if hasattr(c, "_gen_c_api")]
+        try:
+            res = xctx.sort_classes([cls])
+        except Exception as ex:  # noqa
+            out["failures"].append((label, ast, f"sort_classes raised {type(ex).__name__}: {str(ex)[:80]}"))
+            continue
+        names = [c.__name__ for c in res]
+        msg = None
+        if len(names) != len(set(names)):
+            msg = f"a class is emitted twice: {names}"
+        else:
+            for c in need:
+                k = sum(1 for r in res if r is c)
+                if k != 1:
+                    msg = f"class {c.__name__} (one of {len(need)} distinct classes in the closure) is emitted {k} times; emitted: {names}"
+                    break
+        if msg is None:
+            pos = {id(c): k for k, c in enumerate(res)}
+            for c in need:
+                inner = list(c._get_inner_types()) if hasattr(c, "_get_inner_types") else []
+                for d in inner + list(getattr(c, "_depends_on", [])):
+                    if hasattr(d, "_gen_c_api") and id(d) in pos and id(c) in pos and not pos[id(d)] < pos[id(c)]:
+                        msg = f"{d.__name__} is emitted after its dependant {c.__name__}"
+        if msg:
+            out["failures"].append((label, ast, msg))
+    return out
+
+
+REPLAY_REAL = '''#!/usr/bin/env python
+"""replay: dependency closure of a real catalogue type against sort_classes + cffi build (exit 1 = violated)"""
+import os, sys
+if not sys.executable.startswith("/verif/.venv"):
+    os.execv("/verif/.venv/bin/python", ["/verif/.venv/bin/python"] + sys.argv)
+sys.path.insert(0, "/verif")
+import xobjects as xo
+from xobjects.context import sort_classes
+from vx import typegen as tg
+AST = {ast}
+cls = tg.build(AST)
+clos, st = [], [cls]
+while st:
+    c = st.pop()
+    if any(c is x for x in clos): continue
+    clos.append(c)
+    st += list(c._get_inner_types()) if hasattr(c, "_get_inner_types") else []
+    st += list(getattr(c, "_depends_on", []))
+need = [c for c in clos if hasattr(c, "_gen_c_api")]
+res = sort_classes([cls])
+bad = [c.__name__ for c in need if sum(1 for r in res if r is c) != 1]
+if bad:
+    print("VIOLATED: classes of the closure not emitted exactly once:", bad, "emitted:", [c.__name__ for c in res]); sys.exit(1)
+try:
+    xo.ContextCpu().add_kernels(kernels={{}}, extra_classes=[cls])
+except Exception as ex:
+    print("VIOLATED: the emitted source does not build:", type(ex).__name__, str(ex)[:200]); sys.exit(1)
+print("property holds on this case"); sys.exit(0)
+'''
+
+
 def main(pid):
     tr = tier()
     rep = Report(pid, "exploration", tr, technique="symbolic execution of the real sort_classes/topological_sort on abstract classes with solver-variable dependency edges: bounded EXHAUSTIVE path enumeration (the solver prunes infeasible paths and supplies models; weakest use of the technique)")
@@ -368,6 +448,10 @@ def main(pid):
             case = cex.get("detail") or {}
             sig = "sort:" + cex["obligation"][:60]
             rep.candidate(sig, f"{res['name']}: {cex['obligation']} for graph {json.dumps(case)}", REPLAY.format(case=repr(case)))
+    rt = real_types(tr)
+    rep.extra["real_catalogue_types_checked"] = rt["types"]
+    for label, ast, msg in rt["failures"]:
+        rep.candidate("sort-real:" + msg.split(":")[0][:60].replace(label, ""), f"real classes of {label}: {msg} (concrete observation on the catalogue)", REPLAY_REAL.format(ast=repr(ast)))
     rep.extra["graphs_explored"] = graphs
     rep.extra["exhaustive"] = True
     rep.extra["rule"] = "one evaluation = one obligation about one dependency graph (one feasible path of the real sort_classes over solver-variable edges); all graphs inside the bound are enumerated; non-trivial/distinct counted by md5 of (configuration, obligation, path)"
